@@ -207,7 +207,10 @@ func (c *Ctx) ruleServeRouting(r2, r3 *RuleRep) {
 			continue
 		}
 		// receiver: signaller of this client
-		if u, ok := c.Resolve(call.Call.Args[0]).(*ssa.UnOp); !ok || func() bool { b, ok := isFieldAddr(u.X, "BaseClient", "sig"); return !ok || c.Resolve(b) != ssa.Value(m.F.Params[0]) }() {
+		if u, ok := c.Resolve(call.Call.Args[0]).(*ssa.UnOp); !ok || func() bool {
+			b, ok := isFieldAddr(u.X, "BaseClient", "sig")
+			return !ok || c.Resolve(b) != ssa.Value(m.F.Params[0])
+		}() {
 			r2.Bad(key, call.Pos(), "look-up is not made in this client's signaller")
 			continue
 		}
